@@ -348,6 +348,8 @@ def run(spec, mode='sync', rec=None, chooser=None, keep_session=False, **core_kw
             w = spec['wcap']
             r = random.Random(seed ^ 0xc2b2ae35)
             kw['wcap'] = (lambda n: r.randint(1, n)) if w == 'random' else (lambda n: max(1, min(n, w)))
+        if spec.get('subclass'):
+            kw['subclass'] = spec['subclass']          # the caller uses a subclass of the device class that overrides a public method
         s = env.Session(mode, dev, **kw)
         s.loop_per_call = bool(spec.get('loop_per_call')) and mode == 'async'
         dev.clock = s.clock
